@@ -7,7 +7,7 @@ MANIFEST = {
                   'strides[0..arity-1) in the layout install_gv uses. (b) a method with a static_offsets specialisation (constants) runs '
                   'resolve under a runtime_checks policy with ARBITRARY installed offsets: a static_slot_error / static_stride_error is '
                   'reported (then abort) iff some position differs, otherwise resolve returns what the run-time walk returns; also without '
-                  'runtime_checks with equal offsets.',
+                  'runtime_checks with equal offsets; the same call site is judged again after a later update installed other arbitrary offsets.',
     'level_note': 'Arity 1..3 for (b), reference and virtual_ptr arguments, non-virtual parameters between virtual ones; ostream inserters are '
                   'recording stubs in the CBMC build of (a) (formatting is not the subject, the inserted values are) and demangle is stubbed in '
                   'both builds; programs compiled with a generated header are represented by the static_offsets specialisation of (b).',
